@@ -11,7 +11,8 @@
      {"ev":"Keystores","node":i,"ok":b,"pubs":[...]}       public keys of the shares in node i's validator_keys
      {"ev":"Deposits","node":i,"ok":b,"files":[{"file","entries":[{pubkey,wc,amount,sig,fork,net,sig_ok}]}]}
      {"ev":"Combine","nodes":[...],"ok":b,"pubs":[...]}    combine.Combine over these node directories
-     {"ev":"Tamper","leaf","ty","kind","sel","inst","applied":b,"changed":b}   a copy of the pristine file altered
+     {"ev":"Tamper","leaf","ty","kind","sel","inst","jk","applied":b,"changed":b}   a copy of the pristine file altered
+                                              (jk: JSON token kind of the leaf found in the file)
      {"ev":"LoadT","ok":b,"heq":b}            the altered file unmarshalled; heq: all hashes as in the pristine file
      {"ev":"End"}
    Node indices are 0-based in events, 1-based in the spec. *)
@@ -50,6 +51,7 @@ TTamper == /\ IsEvent("Tamper")
            /\ IF Ev.leaf = "*" THEN Ev.applied /\ Rewrite(Ev.kind)
               ELSE /\ Tamper(Ev.leaf, Ev.kind, Ev.changed)
                    /\ Ev.ty = RowOf(Ev.leaf).ty /\ (Ev.changed => Ev.applied)
+                   /\ Ev.jk \in {JsonKind(Ev.ty), "absent"}     \* the file encodes the leaf as the table says
 TLoadT == IsEvent("LoadT") /\ (LoadT(Ev.ok, Ev.heq) \/ (Padded /\ Ev.ok /\ cur.state = "altered"
                                                           /\ cur' = [cur EXCEPT !.state = "loaded"]
                                                           /\ verdict' = "none" /\ UNCHANGED <<cfg, phase, lk, obs>>))
